@@ -4,6 +4,9 @@
    src/alpha.rs).  Model: Model/Containers.v. *)
 From Coq Require Import Permutation.
 From PV Require Import Base.Common Model.Containers Proofs.ContainersProofs.
+From PV Require Model.TypeLegal Proofs.TypeLegalProofs.
+Module TL := TypeLegal.
+Module TLP := TypeLegalProofs.
 
 (* A cycle code (E413/E415/E416) is raised iff the containment graph has a
    cycle — whatever the order and multiplicity in which edges are processed. *)
@@ -60,7 +63,47 @@ Theorem C11_codes_depend_on_order : exists cs es es',
   Permutation es es' /\ snd (run cs es) <> snd (run cs es').
 Proof. exact codes_perm_invariant_refuted. Qed.
 
+(* ---- invalid or misplaced types (E350-E358): Model/TypeLegal.v follows value_type.rs
+   (is_wellformed and the can_be predicates) and the per-position checks of typer.rs on written types;
+   it is compared with the real compiler on EVERY type up to nesting depth 2 (quick) /
+   3 (thorough) at every declaration position on every run. ---- *)
+
+(* A declaration is accepted exactly when its type is well formed - void, a view
+   or a slice only as the whole type, an endless array only as the whole type or
+   directly behind a pointer or view, at any depth - and has one of the shapes its
+   position admits. *)
+Theorem C11_legal_accept_iff : forall p t, TL.legal p t = nil <-> TLP.spec p t.
+Proof. exact TLP.legal_accept_iff. Qed.
+
+Theorem C11_wellformed_iff_occurrences : forall t,
+  TL.is_wellformed (TL.parse_type t) = true <-> TLP.wf_spec t.
+Proof. exact TLP.wellformed_iff_occurrences. Qed.
+
+(* An ill-formed type is rejected with E350 at every position; every rejection carries
+   exactly one code: E350, the code of the position, E358 (extern) or E380 (word). *)
+Theorem C11_legal_E350_iff : forall p t, TL.legal p t = (TL.E350 :: nil) <-> ~ TLP.wf_spec t.
+Proof. exact TLP.legal_E350_iff. Qed.
+
+Theorem C11_legal_classification : forall p t,
+  TL.legal p t = nil \/ TL.legal p t = (TL.E350 :: nil) \/ (TLP.is_extern p = true /\ TL.legal p t = (TL.E358 :: nil))
+  \/ TL.legal p t = (TLP.position_code p :: nil)
+  \/ (exists d fl, p = TL.PWordMember d fl /\ TL.legal p t = (Layout.E380 :: nil)).
+Proof. exact TLP.legal_classification. Qed.
+
+(* The legality checks themselves never fail an assertion (the pinned commit did:
+   defect D46, `extern fn f(x: [][]i32);`). *)
+Theorem C11_legal_never_panics : forall p t, exists cs, TL.legal_outcome p t = TL.OCodes cs.
+Proof. exact TLP.legal_never_panics. Qed.
+
+Theorem C11_legal_panicked_pinned : exists p t l, TL.legal_outcome_pinned p t = TL.OPanic l.
+Proof. exact TLP.extern_nested_arraylike_panicked_pinned. Qed.
+
 Print Assumptions C11_cycle_detected_iff.
+Print Assumptions C11_legal_accept_iff.
+Print Assumptions C11_wellformed_iff_occurrences.
+Print Assumptions C11_legal_E350_iff.
+Print Assumptions C11_legal_classification.
+Print Assumptions C11_legal_never_panics.
 Print Assumptions C11_closure_invariant.
 Print Assumptions C11_depths_topological.
 Print Assumptions C11_depths_perm_invariant.
